@@ -25,6 +25,8 @@ type c17Spec struct {
 	// Wide: an old build of more than 2049 files, so that series refer to old file indices whose value
 	// collides with other fields' magic values (2049 is the end-marker op type)
 	Wide bool `json:"wide"`
+	// Split: one old file X is used by three consecutive new files: its first blocks, a whole copy, its remaining blocks
+	Split bool `json:"split,omitempty"`
 }
 
 func c17Cases(tier string, seed uint64, flavor string) []lib.Case {
@@ -38,6 +40,10 @@ func c17Cases(tier string, seed uint64, flavor string) []lib.Case {
 	for i := 0; i < n; i++ {
 		s := c17Spec{Seed: lib.Mix(seed, 17, uint64(i)), Optimized: i%2 == 1, Comp: comps[i%3], NFiles: 3 + i%7}
 		cases = append(cases, lib.Case{Seed: s.Seed, Kind: "whitelist", Spec: lib.MustSpec(s)})
+	}
+	for k := 0; k < 3; k++ {
+		s := c17Spec{Seed: lib.Mix(seed, 171, uint64(k)), Optimized: false, Comp: comps[k], Split: true}
+		cases = append(cases, lib.Case{Seed: s.Seed, Kind: "whitelist-split", Spec: lib.MustSpec(s)})
 	}
 	for _, comp := range []lib.Comp{{Algo: "none"}, {Algo: "brotli", Quality: 1}} {
 		s := c17Spec{Seed: lib.Mix(seed, 170), Optimized: true, Comp: comp, Wide: true}
@@ -157,6 +163,20 @@ func c17Run(c lib.Case, env *lib.Env) lib.Result {
 	pair, kinds := c17Pair(s.Seed, s.NFiles)
 	if s.Wide {
 		pair, kinds = c17WidePair(s.Seed)
+	}
+	if s.Split {
+		r := lib.NewRng(lib.Mix(s.Seed, 1718))
+		pair = &lib.Pair{Old: lib.NewBuild(), New: lib.NewBuild(), Feat: map[string]bool{}}
+		k := r.Range(1, 3)
+		X := lib.RandomBytes(int64(k+r.Range(1, 3))*lib.BS+int64(r.Intn(3000)), r.Uint64())
+		pair.Old.PutFile("s2-copy.bin", X)
+		// (the differ does not re-find a last full block at a shifted offset, so the head is a block-aligned prefix:
+		// its series then ENDS with the block range [0,k) of X)
+		pair.New.PutFile("s1-head.bin", append([]byte(nil), X[:k*lib.BS]...))
+		pair.New.PutFile("s2-copy.bin", X)
+		pair.New.PutFile("s3-rest.bin", append(append([]byte(nil), X[k*lib.BS:]...), lib.RandomBytes(int64(r.Range(1, 3000)), r.Uint64())...))
+		pair.New.PutFile("s4-fresh.bin", lib.RandomBytes(int64(r.Range(1, 3000)), r.Uint64()))
+		kinds = []string{"patched", "copy", "patched", "fresh"}
 	}
 	oldDir, newDir := filepath.Join(env.Scratch, "old"), filepath.Join(env.Scratch, "new")
 	pair.Old.Materialize(oldDir)
@@ -289,7 +309,11 @@ func c17Run(c lib.Case, env *lib.Env) lib.Result {
 			inner = &lib.StalePool{Inner: inner, Rng: lib.NewRng(lib.Mix(s.Seed, 171))}
 		}
 		rp := &lib.RecordingPool{Inner: inner}
-		fb, err := bowl.NewFreshBowl(bowl.FreshBowlParams{SourceContainer: p.GetSourceContainer(), TargetContainer: p.GetTargetContainer(), TargetPool: rp, OutputFolder: out})
+		var tpool lake.Pool = rp
+		if s.Split {
+			tpool = inner // the pool's own reader objects, unwrapped (no access log for these cases)
+		}
+		fb, err := bowl.NewFreshBowl(bowl.FreshBowlParams{SourceContainer: p.GetSourceContainer(), TargetContainer: p.GetTargetContainer(), TargetPool: tpool, OutputFolder: out})
 		if err != nil {
 			res.Violate("bowl-error", desc, err.Error())
 			return
@@ -316,7 +340,7 @@ func c17Run(c lib.Case, env *lib.Env) lib.Result {
 		for {
 			cur := cp
 			cp = nil
-			rerr := p.Resume(cur, rp, rb)
+			rerr := p.Resume(cur, tpool, rb)
 			if isStop(rerr) && cp != nil {
 				stops++
 				continue
